@@ -39,3 +39,40 @@ Definition check_struct_for (fuel : nat) (x : str) (idxo : option str) (e : expr
     | None => 0%N
     end
   end.
+
+(* ---- nested for loops (Proofs/C01forN.v): source trees [ustmt], annotated with the parser's names by [annotate] ---- *)
+From BS Require Import Proofs.C01forN.
+
+Definition check_lowering_u (text : str) (u : ustmt) : bool :=
+  match parse_script [text] 1 with
+  | ROk code => script_eqb code (compile_u 0 u)
+  | _ => false
+  end.
+
+Definition check_struct_u (fuel : nat) (u : ustmt) (w : world) (xp : expected) (xlog : list str) (xglobals : list (str * tree)) : N :=
+  let cfg := mkcfg 0 false true in
+  let w0 := upd_count (upd_globals w (inject_library (w_globals w))) 0 in
+  let f := fst (annotate 0 u) in
+  if negb (gwf false f && gguard f) then 0%N else
+  match gexec cfg (libcore cfg) no_url no_lint UHost fuel f (None, w0) with
+  | None => 3%N
+  | Some (o, (_, w1)) =>
+    let out := match o with SNormal => Some (OVal VNull) | SStop r => Some r | _ => None end in
+    match out with
+    | Some OOracle => 2%N
+    | Some r =>
+      let res_ok :=
+        match r, xp with
+        | OVal v, XVal t => match reify (reify_fuel w1) w1 v with Some t' => tree_eqb t' t | None => false end
+        | ORt m, XRt m' => str_eqb m m'
+        | _, _ => false
+        end in
+      let glob_ok :=
+        match visible_globals w1 with
+        | Some g => list_eqb (fun a b => str_eqb (fst a) (fst b) && tree_eqb (snd a) (snd b)) g xglobals
+        | None => false
+        end in
+      if res_ok && list_eqb str_eqb (rev (w_log w1)) xlog && glob_ok then 1%N else 0%N
+    | None => 0%N
+    end
+  end.
